@@ -23,9 +23,9 @@ Clause 2.  "TracebackInfo/ExceptionInfo ... list the same frames in the same ord
 file, line, function and source text as the standard traceback module, and their formatted output
 equals the interpreter's (position-marker lines aside)."
 
-  The formatting algorithms are proved for every list of entries.  FULL statement
-  `eiFormat frames t m ++ "\n" = stdFormat frames t m` is false for runs of more than 3 identical
-  entries (`format_eq_std_false`); `format_eq_std_partial` assumes `NoLongRun`.
+  The formatting algorithms are proved equal to the interpreter's for every list of entries (`format_eq_std`,
+  `print_exception_eq_std`, `tbinfo_format_eq`) - since fix 7fb4f9f also for runs of more than 3 identical entries
+  (recursion), which are collapsed into `[Previous line repeated N more times]`.
   The frame walk is modelled from what the interpreter hands over per traceback entry (`TbEntry`: file,
   line number, function, the identity of the frame object, and what linecache can see of the file: cache
   entry, file on disk, loader): TracebackInfo.from_traceback lists every entry whatever frame it refers to,
@@ -284,57 +284,61 @@ theorem frames_eq_extract_tb (tb : List Callpoint) (limit : Option Nat) :
     function, same stripped source text, present under the same condition) -/
 theorem tb_frame_str_eq_std (c : Callpoint) : tbFrameStr c = stdFrameStr c := tbFrameStr_eq_std c
 
-/-- TracebackInfo.get_formatted, for every list of entries, is the header followed by the
-    interpreter's rendering of each entry -/
+/-- TracebackInfo.get_formatted, for every list of entries and every limit, is the header followed by what
+    traceback.format_tb prints - runs of more than 3 identical entries collapsed the same way -/
 theorem tbinfo_format_eq (tb : List Callpoint) (limit : Option Nat) :
-    tbInfoFormat (fromTraceback tb limit) = headerNL ++ (stdExtract tb limit).flatMap stdFrameStr := by
+    tbInfoFormat (fromTraceback tb limit) = headerNL ++ stdLoop none 0 (stdExtract tb limit) := by
   unfold tbInfoFormat
-  rw [frames_eq_extract_tb]
-  congr 1
-  induction stdExtract tb limit with
-  | nil => rfl
-  | cons c cs ih => simp [List.flatMap_cons, tbFrameStr_eq_std, ih]
+  rw [frames_eq_extract_tb, bLoop_eq_stdLoop]
 
-/- FULL: ∀ frames etype msg, eiFormat frames etype msg ++ ['\n'] = stdFormat frames etype msg
-   (false: format_eq_std_false).  Proved under the explicit decidable hypothesis `NoLongRun`. -/
-/-- ExceptionInfo.get_formatted equals the interpreter's text (its final newline aside) whenever no
-    more than 3 consecutive entries share file, line and function -/
-theorem format_eq_std_partial (frames : List Callpoint) (etype msg : Str) (h : NoLongRun frames = true) :
+/-- ExceptionInfo.get_formatted equals the interpreter's text (its final newline aside) for EVERY list of entries -
+    recursion included: since fix 7fb4f9f (r3-c16-work) runs of more than 3 identical entries are collapsed into
+    `[Previous line repeated N more times]` exactly as StackSummary.format does.  (Before the fix this held only
+    under `NoLongRun`: former `format_eq_std_partial` / `format_eq_std_false`.) -/
+theorem format_eq_std (frames : List Callpoint) (etype msg : Str) :
     eiFormat frames etype msg ++ ['\n'] = stdFormat frames etype msg := by
   unfold eiFormat stdFormat tbInfoFormat
-  rw [stdLoop_noLongRun none 0 frames (by omega) h, flatMap_tbFrameStr]
+  rw [bLoop_eq_stdLoop]
   unfold eiExcOnly stdExcOnly
   split <;> simp [List.append_assoc]
 
 def exCp (n : Nat) (f : String) (l : String) : Callpoint := ⟨"/a b/é.py".toList, n, f.toList, l.toList⟩
 
-/-- the exact extent of known finding C16-recursion-collapse: for EVERY list of entries ExceptionInfo.get_formatted
-    is the interpreter's layout with each entry printed on its own (what the interpreter prints while no run is
-    longer than 3) - the only difference to the interpreter is the missing `[Previous line repeated ...]` collapse -/
-theorem format_eq_uncollapsed (frames : List Callpoint) (etype msg : Str) :
+/-- the collapse is really taken: 5 identical entries are printed as 3 entries and one `repeated 2 more times` line -/
+example : eiFormat (List.replicate 5 (exCp 2 "f" "    return f(n - 1)\n")) "RecursionError".toList "deep".toList
+    = ("Traceback (most recent call last):\n" ++
+       "  File \"/a b/é.py\", line 2, in f\n    return f(n - 1)\n" ++
+       "  File \"/a b/é.py\", line 2, in f\n    return f(n - 1)\n" ++
+       "  File \"/a b/é.py\", line 2, in f\n    return f(n - 1)\n" ++
+       "  [Previous line repeated 2 more times]\nRecursionError: deep").toList := by decide +kernel
+
+/-- while no run is longer than 3, every entry is printed on its own -/
+theorem format_eq_uncollapsed (frames : List Callpoint) (etype msg : Str) (h : NoLongRun frames = true) :
     eiFormat frames etype msg ++ ['\n'] = headerNL ++ frames.flatMap stdFrameStr ++ stdExcOnly etype msg := by
-  unfold eiFormat tbInfoFormat
-  rw [flatMap_tbFrameStr]
-  unfold eiExcOnly stdExcOnly
-  split <;> simp [List.append_assoc]
+  rw [format_eq_std]
+  unfold stdFormat
+  rw [stdLoop_noLongRun none 0 frames (by omega) h]
 
 /-- the two halves of the property meet: from_string reads back what ExceptionInfo.get_formatted prints - every
     entry's file, line number, function and stripped source text, the type and the message - and to_string()
-    reproduces that text exactly -/
-theorem parse_formatted (frames : List Callpoint) (etype msg : Str) (h : WFpe (peOf frames etype msg) = true) :
+    reproduces that text exactly (no run longer than 3: a `[Previous line repeated ...]` line is not a frame,
+    from_string stops there - known finding C16-collapse-line-not-parsed) -/
+theorem parse_formatted (frames : List Callpoint) (etype msg : Str) (hr : NoLongRun frames = true)
+    (h : WFpe (peOf frames etype msg) = true) :
     fromString (eiFormat frames etype msg) = .ok (peOf frames etype msg) ∧
     (fromString (eiFormat frames etype msg)).map toString = .ok (eiFormat frames etype msg) := by
-  rw [eiFormat_eq_toString]
+  rw [eiFormat_eq_toString frames etype msg hr]
   exact ⟨parse_render _ h, render_parse _ h⟩
 
-example : WFpe (peOf [exCp 1 "<module>" "f()\n", exCp 5 "f" "    return g(\"a: b\")  \n", exCp 9 "<lambda>" ""]
+example : NoLongRun [exCp 1 "<module>" "f()\n", exCp 5 "f" "    return g(\"a: b\")  \n", exCp 9 "<lambda>" ""] = true ∧
+    WFpe (peOf [exCp 1 "<module>" "f()\n", exCp 5 "f" "    return g(\"a: b\")  \n", exCp 9 "<lambda>" ""]
     "pkg.Err".toList "a: b\nc".toList) = true := by decide +kernel
 
-/-- tbutils.print_exception writes exactly the interpreter's text under the same hypothesis -/
-theorem print_exception_eq_std_partial (frames : List Callpoint) (etype msg : Str) (h : NoLongRun frames = true) :
+/-- tbutils.print_exception writes exactly the interpreter's text, for every list of entries -/
+theorem print_exception_eq_std (frames : List Callpoint) (etype msg : Str) :
     printException frames etype msg = stdFormat frames etype msg := by
   unfold printException stdFormat tbInfoFormat
-  rw [stdLoop_noLongRun none 0 frames (by omega) h, flatMap_tbFrameStr]
+  rw [bLoop_eq_stdLoop]
   unfold stdExcOnly
   split <;> simp [List.append_assoc]
 
@@ -343,15 +347,6 @@ theorem exc_only_eq_std (etype msg : Str) : eiExcOnly etype msg ++ ['\n'] = stdE
   unfold eiExcOnly stdExcOnly
   split <;> simp
 
-
-example : NoLongRun [exCp 1 "<module>" "f()\n", exCp 5 "f" "    return g()  \n", exCp 5 "f" "    return g()  \n",
-                     exCp 5 "f" "    return g()  \n", exCp 9 "<lambda>" ""] = true := by decide +kernel
-
-/-- the full statement is false: the interpreter collapses the 4th identical entry -/
-theorem format_eq_std_false :
-    ∃ frames etype msg, eiFormat frames etype msg ++ ['\n'] ≠ stdFormat frames etype msg := by
-  refine ⟨List.replicate 4 (exCp 2 "f" "f()\n"), "E".toList, [], ?_⟩
-  decide +kernel
 
 /-! ### the frame walk: every traceback entry, with the line the file holds now -/
 
@@ -438,14 +433,13 @@ theorem from_traceback_lists_every_entry (tb : List TbEntry) :
   simp [fromTraceback, walkB, List.map_map, Function.comp_def]
 
 /-- ExceptionInfo.get_formatted of a live exception equals the interpreter's text: walk, line lookup and
-    layout together -/
+    layout together (partial only in the linecache state `LookOK` excludes) -/
 theorem live_format_eq_std_partial (tb : List TbEntry) (sys : Option Int) (etype msg : Str)
-    (h : ∀ e ∈ tb, LookOK e.look = true)
-    (hr : NoLongRun (stdExtract (tb.map walkS) (resolveLimit none sys)) = true) :
+    (h : ∀ e ∈ tb, LookOK e.look = true) :
     eiFormat (fromTraceback (tb.map walkB) (resolveLimit none sys)) etype msg ++ ['\n']
       = stdFormat (stdExtract (tb.map walkS) (resolveLimit none sys)) etype msg := by
   rw [live_frames_eq_extract_tb tb none sys h]
-  exact format_eq_std_partial _ etype msg hr
+  exact format_eq_std _ etype msg
 
 /-! ### the exception's display name; sessions of several captures -/
 
@@ -504,7 +498,6 @@ def exTb : List TbEntry :=
    ⟨"/p/plugin.py".toList, 6, "middle".toList, 1, ⟨.stamped 10 1 "old\n".toList, some (12, 2, "    return leaf(key)\n".toList), none⟩⟩,
    ⟨"<string>".toList, 1, "<module>".toList, 2, ⟨.absent, none, some "x\n".toList⟩⟩]
 
-example : (∀ e ∈ exTb, LookOK e.look = true) ∧
-    NoLongRun (stdExtract (exTb.map walkS) (resolveLimit none (some 3))) = true := by decide +kernel
+example : ∀ e ∈ exTb, LookOK e.look = true := by decide +kernel
 
 end C16
